@@ -66,17 +66,26 @@ def nobits_padding(p):
     return False
 
 
+def _failure_kinds(case, impl):
+    f = oracle(case, impl)
+    return set(x.split(":")[0] for x in f)
+
+
 def kf_c06_nobits_padding(case, impl):
+    # only the byte-difference failures this finding describes: a fault or a missing save on such a program is something else
     p = case.meta.get("prog")
-    return p is not None and nobits_padding(p)
+    return p is not None and nobits_padding(p) and _failure_kinds(case, impl) <= {"twice", "resave"}
 
 
 def kf_c06_member_order(case, impl):
     """a segment lists its members in an order that is not ascending by section index"""
+    # only the failure this finding describes: the file that save() produced cannot be reproduced by load+save
+    if _failure_kinds(case, impl) != {"resave"}:
+        return False
     if case.meta.get("member_order_witness"):
         return True
     p = case.meta.get("prog")
-    if p is None:
+    if p is None or not case.meta.get("pass2"):
         return False
     return any(g["members"] != sorted(g["members"]) for g in p.segments)
 
